@@ -12,7 +12,7 @@ import (
 
 func runC02(c *Ctx) {
 	r := c.R
-	r.Explanation = "Decides, on every feasible path of the traversal function, that exactly one status hand-off happens per traversal end and none otherwise, and what it carries (a warning holding exactly the node's error iff it failed; a completion holding exactly the node's own id, and that id as complete sink iff the node's Type() is sink, iff the event was dropped or the node is a leaf); that the collector merges every field of Status (enumerated from the type) from the received value only; that the verdict is getError(status, ctx.Err(), this graph's two thresholds) in that order; the full decision table of getError over the orderings of the two counts against their thresholds; and the threshold setters/getters (negative rejected without store, store/read on the graph of the given type). Multiset equalities over real runs under cancellation are not decided, only that entries cannot be invented. C02.accessors: Complete()/CompleteSinks() return the fields the collector filled; C02.persist: graphs holding thresholds are never deleted or replaced. C02.types: the nine stock Type() implementations are unconditional constants of their role. C02.merge status-readonly: no method of Status writes through the Status's id lists."
+	r.Explanation = "Decides, on every feasible path of the traversal function, that exactly one status hand-off happens per traversal end and none otherwise, and what it carries (a warning holding exactly the node's error iff it failed; a completion holding exactly the node's own id, and that id as complete sink iff the node's Type() is sink, iff the event was dropped or the node is a leaf); that the collector merges every field of Status (enumerated from the type) from the received value only; that the verdict is getError(status, ctx.Err(), this graph's two thresholds) in that order; the full decision table of getError over the orderings of the two counts against their thresholds; and the threshold setters/getters (negative rejected without store, store/read on the graph of the given type). Multiset equalities over real runs under cancellation are not decided, only that entries cannot be invented. C02.accessors: Complete()/CompleteSinks() return the fields the collector filled; C02.persist: graphs holding thresholds are never deleted or replaced. C02.types: the nine stock Type() implementations are unconditional constants of their role. C02.merge status-readonly: no method of Status writes through the Status's id lists. C02.registered: single-store and one-section; C02.persist: look-up and insert in one write-locked section. C02.registered also: graphMap.Range is sync.Map.Range."
 	r.NotDecided = []string{"completes + warnings = pipelines as a count over real runs", "which entries are missing under cancellation"}
 	a := c.protoAnchors("C02.anchor")
 	if a == nil {
@@ -29,6 +29,15 @@ func runC02(c *Ctx) {
 	c.ruleWGAs("C02.collector", a)
 	c.ruleGetErrorTable()
 	c.ruleThresholds()
+	// "exactly one entry per registered pipeline": what a Send ranges over never misses a pipeline that
+	// is registered before, during and after the call — an overwrite is one atomic Store (no Delete
+	// first), and look-up and store of a registration share one critical section
+	c.ruleSingleStore("C02.registered")
+	c.ruleOneSection("C02.registered")
+	// ... and the Range a Send walks offers every stored pipeline exactly once, whatever is stored or
+	// deleted meanwhile: graphMap.Range is sync.Map.Range over the map Store / Delete act on (an index
+	// cursor over a slice that Delete shifts skips the pipeline that slid into the visited slot)
+	c.ruleGraphMap("C02.registered", "")
 }
 
 // handOff describes a select used as status hand-off.
@@ -530,15 +539,33 @@ func (c *Ctx) ruleThresholds() {
 				r.Und(rule, construct, p.InstrPos(pa.End), "path does not decide the sign of the value: "+p.PathSummary(pa))
 			}
 		}
-		for _, pa := range c.enum(rule, get, PathOpts{Inline: inlineSmall()}) {
+		for _, pa := range c.enum(rule, get, PathOpts{Inline: inlineSmall(), InlineClosures: true, InlineDepth: 3}) {
 			rv := pa.RetVals()
 			if len(rv) != 2 {
 				continue
 			}
 			tb := pa.TermsAt(pa.LastStep())
 			construct := "(*Broker)." + x.getter
-			found, _ := constBool(rv[1])
+			found, isConst := constBool(rv[1])
+			if !isConst {
+				// the flag is the look-up's own comma-ok (handed out by a locked look-up helper): its value on this path
+				fv := pa.Resolve(pa.LastStep(), rv[1])
+				pol, ok := hasAtom(pa, func(at Atom) bool { return at.Op == "true" && at.L.V == fv })
+				if !ok || tb.Of(fv).String() != "Extract[1](Lookup(Field[graphs](Param(0:b)),Param(1:t)))" {
+					r.Und(rule, construct, p.InstrPos(pa.End), "the found-flag "+tb.Of(fv).String()+" is neither a constant nor the decided comma-ok of graphs[t]")
+					continue
+				}
+				found = pol
+			}
 			v := tb.Of(rv[0])
+			// the value may travel through a variable a callback wrote (withGraph(t, func(g) { threshold = g.x }))
+			if st, stStep, stored, isCell := pa.CellValue(pa.LastStep(), rv[0]); isCell {
+				if stored {
+					v = pa.TermsAt(stStep).Of(st.Val)
+				} else {
+					v = &Term{Op: "Const", Name: "0"}
+				}
+			}
 			r.TableRows++
 			if found {
 				ok := v.Is("Field", x.field) && v.Args[0].String() == "Extract[0](Lookup(Field[graphs](Param(0:b)),Param(1:t)))"
@@ -561,6 +588,7 @@ func (c *Ctx) ruleThresholds() {
 func (c *Ctx) ruleGraphsPersist() {
 	p, r := c.P, c.R
 	const rule = "C02.persist"
+	must := c.MustLocks()
 	n := 0
 	for _, f := range p.FuncsIn(PkgRoot) {
 		tb := p.NewTerms(nil)
@@ -609,6 +637,12 @@ func (c *Ctx) ruleGraphsPersist() {
 					lk, isLk := ex.Tuple.(*ssa.Lookup)
 					if isLk && tb.Of(lk.X).Is("Field", "graphs") && tb.Of(lk.Index).String() == keyS && edgeDominates(b.Idom(), fsucc, in.Block()) {
 						okDom = true
+						// ... found absent in the SAME critical section: the look-up holds the write lock too
+						// (a key found absent under the read lock may have been inserted by the time the
+						// write lock is taken — the insert then replaces a graph that holds pipelines and thresholds)
+						if must.At(lk)["eventlogger.Broker.lock"] != 'W' || must.At(in)["eventlogger.Broker.lock"] != 'W' {
+							okDom = false
+						}
 						for _, pl := range phiLookups {
 							if pl != lk {
 								okDom = false
@@ -635,7 +669,7 @@ func (c *Ctx) ruleGraphsPersist() {
 
 func runC03(c *Ctx) {
 	p, r := c.P, c.R
-	r.Explanation = "Decides the protocol obligations whose conjunction is the termination / no-leak argument for Send, each a necessary condition: every feasible send on a chan Status is an arm of a blocking select that also receives from the function's ctx.Done(); the collector's only blocking operation is one select over {ctx.Done(), status channel}, it leaves its loop on either ctx.Done() or channel closed, and nothing blocks between that and its return; the traversal's first effect is defer wg.Done(), every start of it is immediately preceded by wg.Add(1) on the same wait group, the channel is closed at exactly one site, after wg.Wait(), after the range; the inventory of blocking instructions reachable from Send inside package eventlogger equals these whitelisted protocol sites; channel and wait group are created per call and stay private to it. Latency bounds and scheduler fairness are not decided. C03.private make-size: no allocation of the package is sized by a value that can be negative. C03.nocopy: no repository function takes, returns or dereference-copies by value a type that contains a sync primitive. C03.private nil-handle: (*os.File).Name is called on FileSink.f only where the same function found the handle non-nil."
+	r.Explanation = "Decides the protocol obligations whose conjunction is the termination / no-leak argument for Send, each a necessary condition: every feasible send on a chan Status is an arm of a blocking select that also receives from the function's ctx.Done(); the collector's only blocking operation is one select over {ctx.Done(), status channel}, it leaves its loop on either ctx.Done() or channel closed, and nothing blocks between that and its return; the traversal's first effect is defer wg.Done(), every start of it is immediately preceded by wg.Add(1) on the same wait group, the channel is closed at exactly one site, after wg.Wait(), after the range; the inventory of blocking instructions reachable from Send inside package eventlogger equals these whitelisted protocol sites; channel and wait group are created per call and stay private to it. Latency bounds and scheduler fairness are not decided. C03.private make-size: no allocation of the package is sized by a value that can be negative. C03.nocopy: no repository function takes, returns or dereference-copies by value a type that contains a sync primitive. C03.private nil-handle: (*os.File).Name is called on FileSink.f only where the same function found the handle non-nil. C03.event: the event handed to nodes carries an allocated format table."
 	r.NotDecided = []string{"latency after cancellation as a number", "scheduler fairness", "panics inside user nodes"}
 	a := c.protoAnchors("C03.anchor")
 	if a == nil {
@@ -650,6 +684,16 @@ func runC03(c *Ctx) {
 	c.ruleMakeSizes("C03.private")
 	c.rulePanicSites("C03.private")
 	c.ruleNilHandle("C03.private")
+	// "never panics": Event.Formatted is an exported, documented field ("used by Formatters to store
+	// formatted Event data"); a node that stores into it directly runs in a goroutine created by Send,
+	// so the event Send builds carries an allocated map (the routing rule of C01 over the event literal)
+	nObl := len(c.R.Obls)
+	c.ruleRoute(a)
+	for i := nObl; i < len(c.R.Obls); i++ {
+		if c.R.Obls[i].Rule == "C01.route" {
+			c.R.Obls[i].Rule = "C03.event"
+		}
+	}
 	// Send's first step is Broker.lock.RLock(), which does not look at the context: a broker call that
 	// invokes an extension point (Close, Reopen) with Broker.lock held lets a node that sends through the
 	// Broker wait for a lock its own caller holds — that Send never returns, and every later Send queues
